@@ -9,6 +9,7 @@ import PygProofs.Lemmas.OpsLemmas
 import PygProofs.Lemmas.OpsFLemmas
 import PygProofs.Lemmas.OpsXLemmas
 import PygProofs.Lemmas.OpsFXLemmas
+import PygProofs.Lemmas.OpsFoldLemmas
 
 namespace Pyg.Props.C08
 open Pyg Pyg.Align Pyg.Ops
@@ -182,6 +183,106 @@ theorem reduce_value (op : Op) (hop : op = .add ∨ op = .mul) (how : How) (a b 
   refine ⟨ix, jx, h1, h2, ?_⟩
   rw [reduce_left op hop]
   simp only [List.append_nil, List.foldl_cons, List.foldl_nil, e1, e2]
+
+/-- **left to right for ANY number of operands, by value** (induction over the list, not the model's own fold): `add_` /
+`mul_` of the Series `x :: xs` (no fill method, any index policy) is the Series on the joint index of ALL operands
+(`joinIndex` of the list: the intersection / union of all indices, the first, the last) whose value at `t` is the LEFT fold
+`((x[t] op x₁[t]) op x₂[t]) …` of the operands' own values at `t` (`valueAtR`: NaN where an operand has no row).
+`reduce_value` is the case of three operands, stated through the intermediate Series. -/
+theorem reduce_value_n (op : Op) (hop : op = .add ∨ op = .mul) (how : How) (x y : RSeries) (xs : List RSeries) :
+    ∃ jx, joinIndex how ((x :: y :: xs).map (·.idx)) = some jx ∧
+      opList op how Option.none ((x :: y :: xs).map .ts) [] =
+        some (.ts { idx := jx, vals := jx.map fun t => (y :: xs).foldl (fun v s => op.appO v (valueAtR s t)) (valueAtR x t) }) := by
+  obtain ⟨r, h1, h2, h3, h4⟩ := foldl_binop op how x (y :: xs)
+  refine ⟨r.idx, ?_, ?_⟩
+  · rw [h2]; exact joinIndex_fold how x.idx ((y :: xs).map (·.idx))
+  · simp only [List.map_cons, reduce_left op hop, List.append_nil] at h1 ⊢
+    rw [h1]
+    have hv := h3 (by simp)
+    cases r with
+    | mk ri rv =>
+      congr 3
+      exact hv.trans (List.map_congr_left fun t _ => h4 t)
+
+/-- … and for `sub_` / `div_`, whose list arguments are first reduced with `add_` / `mul_`: the value at `t` is
+`(fold⁺ of a's) − (fold⁺ of b's)` resp. `(fold× of a's) / (fold× of b's)`, at every label -/
+theorem reduce_value_sub_div (op : Op) (hop : op = .sub ∨ op = .div) (how : How) (x y : RSeries) (xs ys : List RSeries) :
+    ∃ r, opList op how Option.none ((x :: xs).map .ts) ((y :: ys).map .ts) = some (.ts r) ∧
+      ∀ t, valueAtR r t =
+        op.appO (xs.foldl (fun v s => (if op = .sub then Op.add else Op.mul).appO v (valueAtR s t)) (valueAtR x t))
+                (ys.foldl (fun v s => (if op = .sub then Op.add else Op.mul).appO v (valueAtR s t)) (valueAtR y t)) := by
+  rcases hop with rfl | rfl
+  · obtain ⟨ra, a1, _, _, a4⟩ := foldl_binop .add how x xs
+    obtain ⟨rb, b1, _, _, b4⟩ := foldl_binop .add how y ys
+    obtain ⟨r, c1, _, _, c4⟩ := binop_step .sub how ra rb
+    refine ⟨r, ?_, ?_⟩
+    · simp only [List.map_cons, reduce_sub, a1, b1, c1]
+    · intro t; rw [c4 t, a4 t, b4 t]; rfl
+  · obtain ⟨ra, a1, _, _, a4⟩ := foldl_binop .mul how x xs
+    obtain ⟨rb, b1, _, _, b4⟩ := foldl_binop .mul how y ys
+    obtain ⟨r, c1, _, _, c4⟩ := binop_step .div how ra rb
+    refine ⟨r, ?_, ?_⟩
+    · simp only [List.map_cons, reduce_div, a1, b1, c1]
+    · intro t; rw [c4 t, a4 t, b4 t]; rfl
+
+/-- one operator step read at EVERY label: inside the joint index the pointwise value, outside it NaN - which is what
+`a[t] op b[t]` gives there as well, because one of the operands has no row -/
+theorem binop_value_at (op : Op) (how : How) (a b : RSeries) :
+    ∃ r, binop op how Option.none (.ts a) (.ts b) = .ts r ∧ joinIndex how [a.idx, b.idx] = some r.idx ∧
+      ∀ t, valueAtR r t = op.appO (valueAtR a t) (valueAtR b t) := by
+  obtain ⟨r, h1, h2, _, h4⟩ := binop_step op how a b
+  exact ⟨r, h1, by rw [h2, joinIndex_pair], h4⟩
+
+/-! ### division by zero: never ±inf, against an explicit float division WITH infinities
+`XVal` (Lemmas/OpsFoldLemmas.lean) has `+inf / -inf`; `XVal.div` is numpy's float division (`1/0 = inf`, `-1/0 = -inf`,
+`0/0 = nan`), `XVal.divMasked` the cell of `_div_` for a timeseries denominator (`denom[denom == 0] = nan; a / denom`),
+`XVal.divScalar` the one for a number (`a * nan if b == 0 else a / b`).  Finite arithmetic is exact (no overflow). -/
+
+/-- without the masking, division by zero DOES produce infinities -/
+theorem div_unmasked_inf : XVal.div (.fin 1) (.fin 0) = .pinf ∧ XVal.div (.fin (-1)) (.fin 0) = .ninf ∧ XVal.div (.fin 0) (.fin 0) = .nan := by
+  refine ⟨?_, ?_, ?_⟩ <;> simp [XVal.div] <;> decide
+
+/-- **never ±inf**: for operands that are finite or NaN, the masked division of `_div_` (both branches) is finite or NaN … -/
+theorem div_never_inf (x y : Option Rat) :
+    (XVal.divMasked (.ofO x) (.ofO y)).isInf = false ∧ (XVal.divScalar (.ofO x) (.ofO y)).isInf = false := by
+  cases x with
+  | none => cases y <;> simp [XVal.ofO, XVal.divMasked, XVal.divScalar, XVal.maskZero, XVal.div, XVal.mulNan, XVal.isInf] <;> split <;> rfl
+  | some x =>
+    cases y with
+    | none => simp [XVal.ofO, XVal.divMasked, XVal.divScalar, XVal.maskZero, XVal.div, XVal.isInf]
+    | some y =>
+      by_cases hy : y = 0 <;>
+        simp [XVal.ofO, XVal.divMasked, XVal.divScalar, XVal.maskZero, XVal.div, XVal.mulNan, XVal.isInf, hy]
+
+/-- … and it IS the model's division: `Op.appO .div` (NaN where the denominator is 0 or either side is NaN, else the exact
+quotient) is the masked float division, so `div_zero_none` is a statement about `_div_`'s masking, not about a value type
+that happens to lack infinities -/
+theorem div_masked_eq (x y : Option Rat) :
+    XVal.divMasked (.ofO x) (.ofO y) = .ofO (Op.appO .div x y) ∧ XVal.divScalar (.ofO x) (.ofO y) = .ofO (Op.appO .div x y) := by
+  cases x with
+  | none => cases y <;> simp [XVal.ofO, XVal.divMasked, XVal.divScalar, XVal.maskZero, XVal.div, XVal.mulNan, Op.appO] <;> split <;> rfl
+  | some x =>
+    cases y with
+    | none => simp [XVal.ofO, XVal.divMasked, XVal.divScalar, XVal.maskZero, XVal.div, Op.appO]
+    | some y =>
+      by_cases hy : y = 0 <;>
+        simp [XVal.ofO, XVal.divMasked, XVal.divScalar, XVal.maskZero, XVal.div, XVal.mulNan, Op.appO, Op.app, hy]
+
+/-- the masking is necessary and sufficient: the unmasked quotient is infinite exactly for a non-zero finite numerator over
+a zero denominator, and there the masked one is NaN -/
+theorem div_mask_removes_inf (x y : Rat) :
+    (XVal.div (.fin x) (.fin y)).isInf = true ↔ (y = 0 ∧ x ≠ 0) := by
+  simp only [XVal.div]
+  by_cases hy : y = 0
+  · subst hy
+    simp only [if_true, true_and]
+    by_cases h1 : 0 < x
+    · simp [h1, XVal.isInf]; intro e; subst e; exact absurd h1 (by decide)
+    · by_cases h2 : x < 0
+      · simp [h1, h2, XVal.isInf]; intro e; subst e; exact absurd h2 (by decide)
+      · have : x = 0 := Rat.le_antisymm (Rat.not_lt.mp h1) (Rat.not_lt.mp h2)
+        simp [h1, h2, XVal.isInf, this]
+  · simp [hy, XVal.isInf]
 
 /-! ### NaN-skipping aggregates -/
 
